@@ -3190,7 +3190,9 @@ tsk_edge_table_equals(
                      self->metadata_schema_length * sizeof(char))
                      == 0;
         metadata_equal = false;
-        if (self->metadata_length == other->metadata_length) {
+        /* Only look at the offsets when the row counts agree: other's offset
+         * column has other->num_rows + 1 entries. */
+        if (ret && self->metadata_length == other->metadata_length) {
             if (tsk_edge_table_has_metadata(self)
                 && tsk_edge_table_has_metadata(other)) {
                 metadata_equal
